@@ -377,7 +377,7 @@ def isinstance_body(c):
 
 
 def tests():
-    out = [Test("val:" + name, partial(_body, t), quick=60 * t.weight, thorough=800 * t.weight, shard_size=200)
+    out = [Test("val:" + name, partial(_body, t), quick=100 * t.weight, thorough=800 * t.weight, shard_size=200)
            for name, t in sorted(TEMPLATES.items())]
     out.append(Test("forms", forms_body, quick=1500, thorough=15000, shard_size=250))
     out.append(Test("isinstance", isinstance_body, quick=300, thorough=2000, shard_size=150))
